@@ -4,7 +4,7 @@
 Require Extraction.
 Require Import ExtrOcamlBasic.
 From MC Require Import Model.Base Model.Generated Model.Store Model.Memc Model.Codec
-  Model.Handler Model.Conn Model.Run Model.Conc Model.Server Model.PolConc Spec.Atomic Spec.AtomicM.
+  Model.Handler Model.Conn Model.Run Model.Conc Model.Server Model.Listeners Model.PolConc Spec.Atomic Spec.AtomicM.
 From Coq Require Import NArith ZArith Strings.Byte.
 
 Extraction Language OCaml.
@@ -13,6 +13,7 @@ Extraction "model.ml"
   Store.s_mem Store.s_usage Store.s_now Store.s_cas Store.r_ts Store.total
   Conn.cn_buf Conn.cn_skip
   Server.new_server Server.sv_step Server.mem_nat Server.sv_active
+  Listeners.new_mserver Listeners.ms_step Listeners.ms_active
   Conc.run_sched Conc.mprog_of Conc.new_thread Conc.th_done Conc.mop Conc.op Conc.opres Conc.shared
   PolConc.prun_sched PolConc.new_gthread PolConc.list_client PolConc.g_done PolConc.pop PolConc.pores PolConc.pshared
   AtomicM.ni_sched
